@@ -10,12 +10,18 @@ use serde_json::json;
 
 /// the load must fail with an error value
 pub fn expect_err(ctx: &Ctx, family: &str, case: &dyn Fn() -> String, bytes: &[u8], why: &str) {
+    expect_err_class(ctx, family, case, bytes, why, 0)
+}
+
+/// `class` = a coverage class of the case (e.g. which entity of which base was altered);
+/// the outcome digest is (class, error variant), so distinct_nontrivial counts classes.
+pub fn expect_err_class(ctx: &Ctx, family: &str, case: &dyn Fn() -> String, bytes: &[u8], why: &str, class: u64) {
     if !ctx.wants(family, case) {
         return;
     }
     ctx.eval(1);
     match load(bytes) {
-        Loaded::Err(e) => ctx.outcome(hash64(&("err", err_variant(&e)))),
+        Loaded::Err(e) => ctx.outcome(hash64(&("err", err_variant(&e), class))),
         Loaded::Ok(_) => {
             ctx.outcome(hash64(&"ok"));
             ctx.violation(Violation { family: family.into(), case: case(), sig: "loaded-but-must-fail".into(), detail: format!("load succeeded although {}", why), bytes: Some(bytes.to_vec()), extra: json!({}) });
